@@ -185,6 +185,12 @@ class FormulaMaterializer(metaclass=FormulaMaterializerMeta):
     ) -> Union[ModelMatrix, ModelMatrices]:
         from formulaic import ModelSpec
 
+        # Evaluated and encoded factors depend on the spec (transform and
+        # encoder state, null handling, output type), so caches are only valid
+        # within a single call.
+        self.factor_cache = {}
+        self.encoded_cache = {}
+
         # Prepare ModelSpec(s)
         spec: Union[ModelSpec, ModelSpecs] = ModelSpec.from_spec(
             spec, context=self.layered_context, **spec_overrides
